@@ -314,6 +314,7 @@ package json
 //@   ensures s.expBegin == 0 ==> result == nil && s.intLen == old(s.intLen) && s.fraLen == old(s.fraLen)
 //@   ensures result == nil ==> mathint(s.intLen) + mathint(s.fraLen) == old(s.intLen) + old(s.fraLen) || s.intLen - old(s.intLen) > 4000000000000000000 || old(s.intLen) - s.intLen > 4000000000000000000
 //@   ensures result != nil ==> s.intLen == old(s.intLen) && s.fraLen == old(s.fraLen)
+//@   ensures result == nil && s.expBegin != 0 && 0 - 1000000000000000 < intValOf(value[s.expBegin:]) && intValOf(value[s.expBegin:]) < 1000000000000000 ==> s.intLen == old(s.intLen) + intValOf(value[s.expBegin:]) && s.fraLen == old(s.fraLen) - intValOf(value[s.expBegin:])
 
 // the digits of the mantissa (everything before the first byte that is not a
 // digit, '-' or '.') are appended in order; nothing else is
